@@ -223,7 +223,7 @@ def run(ctx, scratch):
                 for self_emb in (False, True):
                     combo = (norm, self_emb, rng.random() < 0.5, rng.choice(ACTS), rng.random() < 0.5)
                     cases.append(new_case(rng, 'exh_dir_%d' % n, n, E, True, combo))
-    for _ in range(5 if quick else 20):
+    for _ in range(5 if quick else 50):
         order = list(combos)
         rng.shuffle(order)
         for combo in order:
@@ -296,7 +296,7 @@ def run(ctx, scratch):
 
         # ============================ (b) gradients ================================================
         grad_cases = []
-        reps = 10 if quick else 40
+        reps = 10 if quick else 100
         for name in ('identity', 'relu', 'sigmoid', 'softmax', 'CrossEntropy', 'BinaryCrossEntropy'):
             for ch in (1, 2, 3, 4):
                 for _ in range(reps):
@@ -411,7 +411,7 @@ def run(ctx, scratch):
 
         # ============================ (c) sampler ==================================================
         samp_cases = []
-        for _ in range(80 if quick else 600):
+        for _ in range(80 if quick else 1500):
             directed = rng.random() < 0.5
             n, E, fam = gen.random_graph(rng, nmax, directed=directed)
             triples, _ = gen.random_weights(rng, E, directed=directed)
@@ -453,7 +453,7 @@ def run(ctx, scratch):
                               case=s, expected=exp, observed=rows, kind='model')
 
         # ============================ (c) classifier end to end ====================================
-        for t in range(200 if quick else 1200):
+        for t in range(200 if quick else 3000):
             directed = rng.random() < 0.3
             n, E, fam = gen.random_graph(rng, nmax, directed=directed, nmin=3)
             triples, _ = gen.random_weights(rng, E, directed=directed)
